@@ -86,11 +86,16 @@ def classify(fnj):
         if "rust_decimal::Decimal" in full and "Neg" not in d:
             return ("panic", "Decimal operator %s panics on overflow / division by zero" % d.split("::")[-1])
         return ("safe", None)
+    if d in ("std::iter::Iterator::sum", "std::iter::Iterator::product") and (fnj.get("gargs") or [""])[-1] in ("f64", "f32"):
+        return ("safe", None)              # floating-point sum / product: IEEE operations, no overflow check
     for name in (d, inst):
         for r in MAY_PANIC_RE:
             if r.search(name):
                 return ("panic", "callee %s may panic" % name)
     if d in ("std::iter::Iterator::sum", "std::iter::Iterator::product"):
+        ga = fnj.get("gargs") or []
+        if ga and ga[-1] in ("f64", "f32"):
+            return ("safe", None)          # floating-point sum / product: IEEE operations, no overflow check
         return ("panic", "sum/product may overflow")
     for name in (d, inst):
         for r in SAFE_RE:
